@@ -272,3 +272,57 @@ Example C01_partial_same_chain_example :
     = [(75000000000, 55000000000); (65000000000, 65000000000); (55000000000, 65000000000)] /\
   cross_b (75000000000, 55000000000) (65000000000, 65000000000) (65000000000, 65000000000) (55000000000, 65000000000) = false.
 Proof. vm_compute. split; reflexivity. Qed.
+
+(** (P3) the discrete half of the deformation argument, at its end point (Snap/ProofsJoinC01b.v) — PARTIAL.
+    The sweep lemma at time 1 plus "consecutive in travel order": the centre of a hot pixel (a pixel containing a
+    vertex of the polygon) that lies on a step of the routed chain of an edge of the polygon is an end of that step.
+    [qpt p] = p as a pair of rationals; [mix mu x y] = (1 - mu) x + mu y; [peq] = equality of rational pairs. *)
+From Texel Require Import Snap.ProofsJoinC01b.
+
+Theorem C01_partial_no_hot_centre_inside_step : forall g P hs a b L l1 q1 q2 l2 qd (mu : Q), 0 < gres g -> RootCovers g ->
+  insertPolygon g P = Ok hs -> In a (concat P) -> In b (concat P) -> (L <= gdeep g)%nat -> ExactMiddle g L ->
+  route g hs a b L = l1 ++ q1 :: q2 :: l2 -> In qd (hotAt g hs L) -> (0 <= mu)%Q -> (mu <= 1)%Q ->
+  peq (qpt (pixCen g L qd)) (mix mu (qpt (pixCen g L q1)) (qpt (pixCen g L q2))) ->
+  qd = q1 \/ qd = q2.
+Proof. exact no_hot_pixel_on_step. Qed.
+Print Assumptions C01_partial_no_hot_centre_inside_step.
+
+(** on the class of C18, end to end: no vertex of the returned geometry of a level lies in the interior of a returned
+    edge of that level — a vertex on a closed edge is one of its two ends (no T-junctions, no edge through a vertex) *)
+Theorem C01_partial_no_vertex_inside_edge_on_class : forall g P levels cfg res hs, 0 < gres g -> RootCovers g ->
+  (forall L, In L levels -> (0 < L <= gdeep g)%nat) -> insertPolygon g P = Ok hs ->
+  (forall L idx r c, In L levels -> nth_error P idx = Some r ->
+     routedClean g (hotLevels g hs) L idx r = Ok c -> ProofsKmpLe2.le2 c) ->
+  snapPolygon g P levels cfg = Ok res ->
+  forall L ps e p (mu : Q), In (L, ps) res -> In e (edges ps) -> In p (concat (concat ps)) -> ExactMiddle g L ->
+    (0 <= mu)%Q -> (mu <= 1)%Q -> peq (qpt p) (mix mu (qpt (fst e)) (qpt (snd e))) -> p = fst e \/ p = snd e.
+Proof. exact no_vertex_inside_edge_on_class. Qed.
+Print Assumptions C01_partial_no_vertex_inside_edge_on_class.
+
+(** C01 ITSELF ON THE CLASS IS NOT PROVED.  What is missing is the continuity half of the deformation argument: two
+    segments whose end points move linearly, disjoint at time 0 and crossing properly at time 1, have a time at which
+    an end point of one lies on the other.  That time is in general irrational (a root of a quadratic), so this needs
+    the reals; the sweep lemma then has to be used at a real time, and a real parameter of "the segment is inside the
+    pixel" turned back into a rational one.  A zero of the obvious continuous witness (the minimum of the four
+    products that characterise a proper crossing) can also be a moment at which the segments are merely parallel, so
+    the LAST such time has to be taken and the parallel case treated by a limit argument on projections. *)
+
+(** non-vacuity for P3: the hypotheses hold for the neck polygon at the levels 5, 3, 2 (all > 0; see
+    [C01_partial_far_edges_example] for the class); in the level-3 result every vertex that lies on a closed edge
+    (collinear and inside its bounding box, exact integer test) is an end of it — (20,28), an end of the collapsed corridor, is an end of three
+    edges *)
+Example C01_partial_no_vertex_inside_edge_example :
+  let ps := [[[(4,4);(20,4);(20,28);(20,60);(4,60)]]; [[(44,28);(44,4);(60,4);(60,60);(44,60)]]; [[(20,28);(44,28)]]] in
+  let on_b (p : pt) (e : edge) :=
+    (orient3 (fst e) (snd e) p =? 0) &&
+    (Z.min (fst (fst e)) (fst (snd e)) <=? fst p) && (fst p <=? Z.max (fst (fst e)) (fst (snd e))) &&
+    (Z.min (snd (fst e)) (snd (snd e)) <=? snd p) && (snd p <=? Z.max (snd (fst e)) (snd (snd e))) in
+  (forall L, In L [5; 3; 2]%nat -> (0 < L <= gdeep c01G)%nat) /\
+  snapLevel c01G (hotsOf c01G c01Neck) c01Neck (mkConfig true false false) 3 = Ok (Some ps) /\
+  forallb (fun e => forallb (fun p => negb (on_b p e) || pt_eqb p (fst e) || pt_eqb p (snd e)) (concat (concat ps))) (edges ps) = true /\
+  length (filter (fun e => on_b (20,28) e) (edges ps)) = 3%nat.
+Proof.
+  cbv zeta. split.
+  { intros L HL. cbn [In] in HL. destruct HL as [<- | [<- | [<- | []]]]; cbn [gdeep c01G]; split; repeat constructor. }
+  vm_compute. repeat split; reflexivity.
+Qed.
